@@ -1206,6 +1206,7 @@ HLPwrite(accrec_t *access_rec, int32 length, const void *datap)
     int32 nbytes         = 0; /* #bytes written by any single Hwrite */
     int32 bytes_written  = 0; /* total #bytes written by HLIwrite */
     uint8 local_ptbuf[4] = {0, 0, 0, 0};
+    int32 open_aid       = FAIL; /* helper access record (block, link table, header) that is open right now */
     int32 ret_value      = SUCCEED;
 
     /* convert file id to file record */
@@ -1257,10 +1258,12 @@ HLPwrite(accrec_t *access_rec, int32 length, const void *datap)
 
                     if (link_id == FAIL)
                         HGOTO_ERROR(DFE_WRITEERROR, FAIL);
+                    open_aid = link_id;
                     UINT16ENCODE(p, t_link->nextref);
                     if (Hwrite(link_id, 2, local_ptbuf) == FAIL)
                         HGOTO_ERROR(DFE_WRITEERROR, FAIL);
                     Hendaccess(link_id);
+                    open_aid = FAIL;
                 } /* AA */
             }     /* if not t_link->next */
 
@@ -1297,12 +1300,14 @@ HLPwrite(accrec_t *access_rec, int32 length, const void *datap)
 
         if (access_id == (int32)FAIL)
             HGOTO_ERROR(DFE_WRITEERROR, FAIL);
+        open_aid = access_id;
 
         if ((relative_posn && (int32)FAIL == Hseek(access_id, relative_posn, DF_START)) ||
             (int32)FAIL == (nbytes = Hwrite(access_id, remaining, data))) {
             HGOTO_ERROR(DFE_WRITEERROR, FAIL);
         }
         Hendaccess(access_id);
+        open_aid = FAIL;
         bytes_written += nbytes;
 
         if (new_ref) { /* created a new block, so update the link/block table */
@@ -1317,12 +1322,14 @@ HLPwrite(accrec_t *access_rec, int32 length, const void *datap)
 
             if (link_id == FAIL)
                 HGOTO_ERROR(DFE_WRITEERROR, FAIL);
+            open_aid = link_id;
             UINT16ENCODE(p, new_ref);
             if (Hseek(link_id, 2 + 2 * block_idx, DF_START) == FAIL)
                 HGOTO_ERROR(DFE_SEEKERROR, FAIL);
             if (Hwrite(link_id, 2, local_ptbuf) == FAIL)
                 HGOTO_ERROR(DFE_WRITEERROR, FAIL);
             Hendaccess(link_id);
+            open_aid = FAIL;
 
             /* update memory structure */
             t_link->block_list[block_idx].ref = new_ref;
@@ -1352,10 +1359,12 @@ HLPwrite(accrec_t *access_rec, int32 length, const void *datap)
 
                     if (link_id == FAIL)
                         HGOTO_ERROR(DFE_WRITEERROR, FAIL);
+                    open_aid = link_id;
                     UINT16ENCODE(p, t_link->nextref);
                     if (Hwrite(link_id, 2, local_ptbuf) == FAIL)
                         HGOTO_ERROR(DFE_WRITEERROR, FAIL);
                     Hendaccess(link_id);
+                    open_aid = FAIL;
                 } /* BB */
             }     /* if not t_link->next  */
 
@@ -1374,6 +1383,7 @@ HLPwrite(accrec_t *access_rec, int32 length, const void *datap)
         HGOTO_ERROR(DFE_INTERNAL, FAIL);
     if ((dd_aid = Hstartaccess(access_rec->file_id, data_tag, data_ref, DFACC_WRITE)) == FAIL)
         HGOTO_ERROR(DFE_CANTACCESS, FAIL);
+    open_aid = dd_aid;
     if (Hseek(dd_aid, 2, DF_START) == FAIL)
         HGOTO_ERROR(DFE_SEEKERROR, FAIL);
     {
@@ -1387,6 +1397,7 @@ HLPwrite(accrec_t *access_rec, int32 length, const void *datap)
     }
     if (Hwrite(dd_aid, 4, local_ptbuf) == FAIL)
         HGOTO_ERROR(DFE_READERROR, FAIL);
+    open_aid = FAIL; /* released by Hendaccess also when it fails */
     if (Hendaccess(dd_aid) == FAIL)
         HGOTO_ERROR(DFE_CANTENDACCESS, FAIL);
 
@@ -1396,6 +1407,10 @@ HLPwrite(accrec_t *access_rec, int32 length, const void *datap)
     ret_value = bytes_written;
 
 done:
+    /* do not leave a helper access record attached to the file: Hclose would refuse to close it */
+    if (ret_value == FAIL && open_aid != FAIL)
+        Hendaccess(open_aid);
+
     return ret_value;
 } /* HLPwrite */
 
